@@ -11,6 +11,7 @@ import (
 	"bufio"
 	"bytes"
 	"context"
+	"encoding/base64"
 	"encoding/hex"
 	"encoding/json"
 	"flag"
@@ -1064,6 +1065,52 @@ func modeValues(n int) {
 			}
 		}
 	}
+	// literal.NewBoundedBuilder(max): what Build accepts must parse back from its own printed form with the same builder
+	// (max = size of the value, also for blobs whose printed form is up to four times longer), and what is larger than max
+	// must be refused by both
+	boundedCase := func(ty literal.Type, v interface{}, size int) {
+		for _, max := range []int{size, size + 1, size - 1, 4 * size, 64} {
+			if max < 0 {
+				continue
+			}
+			bb := literal.NewBoundedBuilder(max)
+			j := J{"kind": "bounded", "ty": ty.String(), "size": size, "max": max}
+			func() {
+				defer func() {
+					if r := recover(); r != nil {
+						j["panic"] = true
+					}
+				}()
+				l, err := bb.Build(ty, v)
+				j["build_ok"] = err == nil
+				var text string
+				if err == nil {
+					text = l.String()
+				} else {
+					ul, _ := literal.DefaultBuilder().Build(ty, v)
+					text = ul.String()
+				}
+				j["text"] = hx(text)
+				pl, perr := bb.Parse(text)
+				j["parse_ok"] = perr == nil && pl != nil
+				if perr == nil && pl != nil {
+					j["equal"] = fmt.Sprint(obsLit(pl)) == fmt.Sprint(obsLit(func() *literal.Literal { x, _ := literal.DefaultBuilder().Build(ty, v); return x }()))
+				}
+			}()
+			emit(j)
+		}
+	}
+	for _, size := range []int{0, 1, 2, 15, 16, 17, 63, 64, 65, 200} {
+		blob := make([]byte, size)
+		for i := range blob {
+			blob[i] = byte(200 + i%56)
+		}
+		boundedCase(literal.Blob, blob, size)
+		small := make([]byte, size)
+		boundedCase(literal.Blob, small, size)
+		boundedCase(literal.Text, strings.Repeat("é", size/2)+strings.Repeat("x", size%2), size)
+		boundedCase(literal.Text, strings.Repeat("\"", size), size)
+	}
 	// long values (ids / texts / blobs of 300 bytes .. 100 KiB): round trip observed on the implementation only
 	rep := func(s string, n int) string { return strings.Repeat(s, n/len(s)+1)[:n] }
 	for _, n := range []int{300, 5000, 70000} {
@@ -1292,6 +1339,29 @@ func modeGraph(n int) {
 		sort.Strings(wl)
 		j["wlines"] = hxs(wl)
 		r := readCase("graph", buf.String(), tb)
+		// the same text read with a bounded builder whose bound is the largest text / blob value of the graph
+		func() {
+			maxv := 0
+			for _, t := range ts {
+				if l, err := t.Object().Literal(); err == nil {
+					if s, e := l.Text(); e == nil && len(s) > maxv {
+						maxv = len(s)
+					}
+					if b, e := l.Blob(); e == nil && len(b) > maxv {
+						maxv = len(b)
+					}
+				}
+			}
+			defer func() {
+				if x := recover(); x != nil {
+					j["bounded_read"] = J{"panic": true, "max": maxv}
+				}
+			}()
+			g3 := newGraph()
+			cnt, err := bwio.ReadIntoGraph(context.Background(), g3, strings.NewReader(buf.String()), literal.NewBoundedBuilder(maxv))
+			ls, _ := graphLines(g3)
+			j["bounded_read"] = J{"max": maxv, "cnt": cnt, "err": err != nil, "same": fmt.Sprint(hxs(ls)) == fmt.Sprint(r["lines"])}
+		}()
 		j["read"] = r
 		j["tables"] = r["tables"]
 		delete(r, "tables")
@@ -1641,8 +1711,33 @@ func safeUUID(v val) (s string) {
 	return a.String()
 }
 
+// every value whose UUID was taken in this process, for the stability re-check at the end of the uuid mode
+var uuidLog []struct {
+	v val
+	u string
+}
+
+// the UUID of the value obtained by parsing the printed form (the UUID must survive the text round trip)
+func reparsedUUID(v val) (s string) {
+	defer func() {
+		if r := recover(); r != nil {
+			s = "panic"
+		}
+	}()
+	res, v2 := parseKind(v.kind(), v.str())
+	if res["c"] != "ok" {
+		return "unparsable"
+	}
+	return v2.uuid().String()
+}
+
 func emitUUID(src string, v val) {
-	emit(J{"kind": "uuid", "src": src, "vk": v.kind(), "v": v.obs(), "uuid": safeUUID(v)})
+	u := safeUUID(v)
+	uuidLog = append(uuidLog, struct {
+		v val
+		u string
+	}{v, u})
+	emit(J{"kind": "uuid", "src": src, "vk": v.kind(), "v": v.obs(), "uuid": u, "uuid_reparsed": reparsedUUID(v)})
 }
 
 func emitPair(src string, a, b val) {
@@ -1684,9 +1779,60 @@ func emitPair(src string, a, b val) {
 	emit(j)
 }
 
+// blank nodes (type /_) whose id is the text of a UUID, in every form github.com/pborman/uuid.Parse accepts: lower / upper
+// case, urn:uuid: prefix, braces, and the printed UUID of OTHER values
+func uuidNamedBlankNodes() []val {
+	var out []val
+	mk := func(id string) {
+		if n, err := node.NewNodeFromStrings("/_", id); err == nil {
+			out = append(out, val{n: n})
+		}
+	}
+	bases := []string{"6ba7b810-9dad-11d1-80b4-00c04fd430c8", "00000000-0000-0000-0000-000000000000", "f47ac10b-58cc-4372-a567-0e02b2c3d479"}
+	for _, v := range []val{nodeOf("/a", "bc"), immOf("x"), litOf(literal.Text, "true"), litOf(literal.Int64, int64(1))} {
+		bases = append(bases, v.uuid().String())
+	}
+	for _, b := range bases {
+		mk(b)
+		mk(strings.ToUpper(b))
+		mk("urn:uuid:" + b)
+		mk("URN:UUID:" + b)
+		mk("{" + b + "}")
+		mk(strings.ReplaceAll(b, "-", ""))
+		mk(b + " ")
+		mk(b[:35])
+	}
+	return out
+}
+
 func modeUUID(n int) {
 	for _, p := range fixedPairs() {
 		emitPair("fixed", p[0], p[1])
+	}
+	blanks := uuidNamedBlankNodes()
+	for _, b := range blanks {
+		emitUUID("blank-uuid", b)
+	}
+	for i := 0; i+1 < len(blanks); i++ {
+		emitPair("blank-uuid", blanks[i], blanks[i+1])
+	}
+	// a blank node named after the printed UUID of another value must not get that value's UUID
+	for _, v := range []val{nodeOf("/a", "bc"), immOf("x"), litOf(literal.Text, "true")} {
+		emitPair("blank-uuid", val{n: mustNode("/_", v.uuid().String())}, v)
+	}
+	// the same instant written in a zone (incl. negative half-hour zones) and in UTC, both obtained by PARSING the text
+	for i, z := range []int{-12600, -34200, -9000, -1800, 1800, 20700, 19800, -3600, 3600, -43200, 50400} {
+		t0 := time.Date(2015, 1, 1, 12, 0, 0, i*1000, time.UTC).Add(time.Duration(i) * 37 * time.Minute)
+		ta := "\"foo\"@[" + t0.In(time.FixedZone("", z)).Format(time.RFC3339Nano) + "]"
+		tb := "\"foo\"@[" + t0.Format(time.RFC3339Nano) + "]"
+		ra, a := parseKind("pred", ta)
+		rb, b := parseKind("pred", tb)
+		j := J{"kind": "sameinstant", "texta": hx(ta), "textb": hx(tb), "ok": ra["c"] == "ok" && rb["c"] == "ok"}
+		if ra["c"] == "ok" && rb["c"] == "ok" {
+			j["ua"], j["ub"] = safeUUID(a), safeUUID(b)
+			j["uc"] = safeUUID(tmpOf("foo", t0)) // and the predicate built by the constructor for that instant
+		}
+		emit(j)
 	}
 	for _, v := range intEdges {
 		emitUUID("edge", litOf(literal.Int64, v))
@@ -1737,6 +1883,52 @@ func modeUUID(n int) {
 		}
 		emitPair("gen", a, b)
 	}
+	// stability: after every exported helper of storage/memory that touches UUID values has been used (and a graph has
+	// been filled and queried), every UUID computed earlier in this process must still be the same
+	func() {
+		defer func() { recover() }()
+		for _, e := range uuidLog[:min(len(uuidLog), 50)] {
+			if e.u == "panic" {
+				continue
+			}
+			u := e.v.uuid()
+			s := memory.UUIDToByteString(u)
+			enc := base64.StdEncoding.EncodeToString([]byte(s))
+			if back, err := memory.Base64ToUUID(enc); err != nil || back.String() != u.String() {
+				emit(J{"kind": "uuidhelper", "what": "Base64ToUUID(base64(UUIDToByteString(u))) is not u", "uuid": u.String()})
+			}
+			memory.Base64ToUUID("not base 64")
+			memory.Base64ToUUID("AAAA")
+		}
+		g := newGraph()
+		var ts []*triple.Triple
+		for i := 0; i < 20; i++ {
+			ts = append(ts, genSafeTriple())
+		}
+		g.AddTriples(context.Background(), ts)
+		g.Exist(context.Background(), ts[0])
+		graphLines(g)
+		g.RemoveTriples(context.Background(), ts[:5])
+	}()
+	changed := 0
+	var ex []J
+	for _, e := range uuidLog {
+		if u := safeUUID(e.v); u != e.u {
+			changed++
+			if len(ex) < 3 {
+				ex = append(ex, J{"vk": e.v.kind(), "v": e.v.obs(), "before": e.u, "after": u})
+			}
+		}
+	}
+	emit(J{"kind": "uuidstable", "values": len(uuidLog), "changed": changed, "examples": ex})
+}
+
+func mustNode(t, id string) *node.Node {
+	n, err := node.NewNodeFromStrings(t, id)
+	if err != nil {
+		panic(err)
+	}
+	return n
 }
 
 // uuidconc mode (runtime part of C06, "the same on every call, in every goroutine"): the UUIDs of a set of values are
